@@ -13,17 +13,29 @@ import (
 	"github.com/vimeo/dials/zzverif"
 )
 
-func c16flaggen(nfields int) {
+func c16flaggen(nfields int) { c16flaggenA(nfields, false) }
+
+func c16flaggenA(nfields int, ptrAlphabet bool) {
 	shapes := make([]int, nfields)
 	for i := range shapes {
-		shapes[i] = zzverif.Choose("shape"+strconv.Itoa(i), zzverif.GenNumNamedShapes())
+		if ptrAlphabet {
+			shapes[i] = zzverif.Choose("shape"+strconv.Itoa(i), zzverif.GenNumPtrShapes())
+		} else {
+			shapes[i] = zzverif.Choose("shape"+strconv.Itoa(i), zzverif.GenNumNamedShapes())
+		}
 	}
 	gt, ok := zzverif.GenStructNamed(shapes)
+	if ptrAlphabet {
+		gt, ok = zzverif.GenStructPtr(shapes)
+	}
 	if !ok {
 		zzverif.Reached("c16-flaggen-end")
 		return
 	}
 	scalar := func(k int) bool {
+		if ptrAlphabet {
+			return true // every leaf of the pointer alphabet is given on the command line
+		}
 		switch k {
 		case zzverif.GLNamedString, zzverif.GLNamedBool, zzverif.GLNamedInt64, zzverif.GLNamedFloat32, zzverif.GLNamedUint8, zzverif.GLPtrNamedString:
 			return true
@@ -70,3 +82,4 @@ func c16flaggen(nfields int) {
 }
 
 func HarnessC16FlagGen2() { c16flaggen(2) }
+func HarnessC16FlagPtrGen2() { c16flaggenA(2, true) }
